@@ -46,10 +46,14 @@ func (c *CircuitFixed) Define(api frontend.API) error {
 	if len(publicInputs) != 16 {
 		return fmt.Errorf("expected 16 public inputs, got %d", len(publicInputs))
 	}
+	glChip := gl.New(api)
 	for j := 0; j < 4; j++ {
 		publicInputLimb := frontend.Variable(0)
 		slicePub := publicInputs[j*4 : (j+1)*4]
 		for i := 0; i < 4; i++ {
+			// Each plonky2 public input is a 32 bit limb of the on-chain value.  The verifier only sees
+			// the limbs modulo the Goldilocks prime, so their width must be enforced here.
+			glChip.RangeCheckWithMaxBits(slicePub[i], 32)
 			pubU32 := slicePub[i].Limb
 			pubByte := frontend.Variable(new(big.Int).SetUint64(1 << 32))
 			publicInputLimb = api.Add(pubU32, api.Mul(pubByte, publicInputLimb))
